@@ -9,10 +9,15 @@ def q(name, style=None):
     return name
 
 
+UNQUALIFY = None      # schema whose tables are written without it (the text relies on that schema being the default)
+
+
 def tbl_text(r, qualify=None):
     s = r["s"]
     if s == "none":
         return (qualify + "." if qualify else "") + r["n"]
+    if UNQUALIFY is not None and s == UNQUALIFY:
+        return r["n"]
     return s + "." + r["n"]
 
 
@@ -119,10 +124,12 @@ def expr(form, refs):
 
 
 def render(prog, form1="plain", form2="arith", as_kw=True, qualify=None, join="join", paren_source=False, spell=None, cte=False,
-           inner_join=None, where_sub=None, merge_insert=True, scalar_form="plain", target_in_where=False, tablesample=False):
+           inner_join=None, where_sub=None, merge_insert=True, scalar_form="plain", target_in_where=False, tablesample=False, unqualify=None):
     """spell: statement-local alias -> the text it is written as (renaming of statement-local names, C08);
     cte: derived tables are written as CTEs and read without an alias; inner_join: the FROM of every derived table joins one
     more table, read under that name (inner columns are then qualified with the inner table's bare name)"""
+    global UNQUALIFY
+    UNQUALIFY = unqualify
     rels = prog["rels"]
     sp = spell or {}
     cte = cte if (cte == "aliased" and any(r["k"] == "sub" for r in rels + [dict(b, k="sub") for b in prog["branch2"] if b.get("al", "none") != "none"])) else (cte and cte_ok(prog))
@@ -205,7 +212,7 @@ def render(prog, form1="plain", form2="arith", as_kw=True, qualify=None, join="j
             sel += " union all select %s from %s" % (", ".join(b["cols"]), tbl_text(b, qualify))
     tgt = (qualify + "." if qualify else "") + "tgt"
     if prog.get("tk"):
-        tgt = "s.tgt"
+        tgt = "tgt" if unqualify == "s" else "s.tgt"
     if paren_source and prog["kind"] != "ctas" and not ctes:
         sel = "(" + sel + ")"           # INSERT INTO t (SELECT ...): a parenthesised source query
     w = "with " + ", ".join(ctes) + " " if ctes else ""
